@@ -563,7 +563,7 @@ pub fn eval_unit_name(
             }
             BinOpType::And | BinOpType::Or | BinOpType::Xor => {
                 let (left_unit, left) = eval_unit_name(ctx, &binop.left)?;
-                let (right_unit, _right) = eval_unit_name(ctx, &binop.right)?;
+                let (right_unit, right) = eval_unit_name(ctx, &binop.right)?;
 
                 if !left_unit.is_empty() || !right_unit.is_empty() {
                     return Err(QueryError::generic(format!(
@@ -571,7 +571,13 @@ pub fn eval_unit_name(
                         binop.op
                     )));
                 }
-                Ok((left_unit, left))
+                let (left, right) = (Number::new(left), Number::new(right));
+                let res = match binop.op {
+                    BinOpType::And => left.and(&right),
+                    BinOpType::Or => left.or(&right),
+                    _ => left.xor(&right),
+                };
+                Ok((left_unit, res.map_err(QueryError::generic)?.value))
             }
         },
         Expr::Mul { ref exprs } => {
